@@ -26,12 +26,13 @@ RULES = [
     (r'repr of a 1-tuple|str\.|ord\(\)|strip chars', 'C14'),
     (r'importing a missing module|from m import \*|module whose body raised', 'C19'),
     (r"leaves '_' alone|white space at the primary prompt", 'C20'),
+    (r'unbounded recursion', 'C10'),
     (r'generator|yield from|StopIteration|for loop|FOR_ITER|unpack|iterat|enumerate', 'C05'),
     (r'float|round\(|int / int|complex|min.*max|nan|inf', 'C15'),
     (r'decorator|trailing comma|augmented assign|non-keyword arg|bare \*|bytes literal|raw string|try without|starred expression|grammar|parser|parsed', 'C06'),
     (r'sort|extend|dict\(|set augmented|\*=|list iterator|\+= ', 'C17'),
     (r'tuple slice|list slices|tuple concat|range|slice|index|bytes .*contains|repeat|sequence', 'C13'),
-    (r'panick|panic|instead of aborting', 'C10'),
+    (r'panick|panic|instead of aborting|unbounded recursion', 'C10'),
 ]
 
 
